@@ -21,7 +21,10 @@ import (
 	"encoding/json"
 	"fmt"
 	"os"
+	"runtime"
 	"sort"
+	"sync"
+	"sync/atomic"
 	"strings"
 	"testing"
 	"time"
@@ -68,6 +71,7 @@ func c07Init() {
 
 // world of one execution
 type c07World struct {
+	hmu       sync.Mutex // harness bookkeeping only (never held across a scheduling point)
 	dir       string
 	submitted map[refdb.ID]refdb.Doc
 	errs      []string // oracle failures observed by threads (appended under the scheduler: one thread at a time)
@@ -75,7 +79,17 @@ type c07World struct {
 	cleanup   []func()
 }
 
-func (w *c07World) fail(format string, a ...any) { w.errs = append(w.errs, fmt.Sprintf(format, a...)) }
+func (w *c07World) fail(format string, a ...any) {
+	w.hmu.Lock()
+	w.errs = append(w.errs, fmt.Sprintf(format, a...))
+	w.hmu.Unlock()
+}
+
+func (w *c07World) ack(docs []refdb.Doc) {
+	w.hmu.Lock()
+	w.acked = append(w.acked, docs...)
+	w.hmu.Unlock()
+}
 
 func (w *c07World) submit(docs []refdb.Doc) {
 	for _, d := range docs {
@@ -208,6 +222,10 @@ func indexerLoop(ai *frac.ActiveIndexer, done func() bool) func() {
 				return
 			}
 			t := vsched.Cur()
+			if t == nil { // free-running mode (race pass): plain polling
+				runtime.Gosched()
+				continue
+			}
 			vsched.Block(t, func() bool { return ai.VerifPending() == 0 && !done() }, "indexer-idle")
 		}
 	}
@@ -331,7 +349,7 @@ func c07Scenarios() []c07Scenario {
 			a := fp.NewActive(w.dir + "/seq-db-H1")
 			w.cleanup = append(w.cleanup, a.Suicide)
 			var wg vfrac.WG
-			written := 0
+			var written atomic.Int32
 			for _, b := range bulks {
 				w.submit(c07Bulk(b...))
 			}
@@ -344,13 +362,13 @@ func c07Scenarios() []c07Scenario {
 						w.fail("append error: %v", err)
 						wg.Done()
 					} else {
-						w.acked = append(w.acked, docs...) // acknowledged once indexed; judged at quiescence
+						w.ack(docs) // acknowledged once indexed; judged at quiescence
 					}
-					written++
+					written.Add(1)
 				}
 			}}
 			for i := 0; i < indexers; i++ {
-				bodies = append(bodies, indexerLoop(ai, func() bool { return written == len(bulks) }))
+				bodies = append(bodies, indexerLoop(ai, func() bool { return int(written.Load()) == len(bulks) }))
 			}
 			for i := 0; i < readers; i++ {
 				who := fmt.Sprintf("reader%d", i)
@@ -393,7 +411,7 @@ func c07Scenarios() []c07Scenario {
 			for _, b := range bulks {
 				w.submit(c07Bulk(b...))
 			}
-			writersDone := false
+			var writersDone atomic.Bool
 			sealed, suicided := false, false
 			get := func() List { return List{pf} }
 			bodies := []func(){
@@ -402,12 +420,12 @@ func c07Scenarios() []c07Scenario {
 						docs := c07Bulk(b...)
 						d, m := vfrac.BuildBulk(docs, 1)
 						if err := pf.Append(d, m); err == nil {
-							w.acked = append(w.acked, docs...)
+							w.ack(docs)
 						}
 					}
-					writersDone = true
+					writersDone.Store(true)
 				},
-				indexerLoop(ai, func() bool { return writersDone }),
+				indexerLoop(ai, func() bool { return writersDone.Load() }),
 				func() { // sealer
 					_, err := pf.Seal(frac.SealParams{IDsZstdLevel: 1, LIDsZstdLevel: 1, TokenListZstdLevel: 1, DocsPositionsZstdLevel: 1, TokenTableZstdLevel: 1, DocBlocksZstdLevel: 1})
 					if err != nil && err != ErrSealingFractionSuicided {
@@ -464,7 +482,7 @@ func c07Scenarios() []c07Scenario {
 		for _, b := range bulks {
 			w.submit(c07Bulk(b...))
 		}
-		writersDone := false
+		var writersDone atomic.Bool
 		get := func() List { return fm.GetAllFracs() }
 		bodies := []func(){
 			func() {
@@ -474,12 +492,12 @@ func c07Scenarios() []c07Scenario {
 					if err := fm.Append(context.Background(), d, m); err != nil {
 						w.fail("fm.Append error: %v", err)
 					} else {
-						w.acked = append(w.acked, docs...)
+						w.ack(docs)
 					}
 				}
-				writersDone = true
+				writersDone.Store(true)
 			},
-			indexerLoop(ai, func() bool { return writersDone }),
+			indexerLoop(ai, func() bool { return writersDone.Load() }),
 			func() { // the maintenance step that rotates and seals
 				active := fm.rotate()
 				fm.seal(active)
@@ -816,4 +834,55 @@ func c07FirstCause(stderr string) string {
 		}
 	}
 	return "unknown"
+}
+
+
+// TestVerifC07Race is the free-running add-on pass: the same scenario bodies run as plain goroutines
+// (no scheduler) in a binary built with -race, for a number of rounds. It is sampling, declared as such;
+// the deciding step is the exhaustive exploration above. A data race report fails the binary and the
+// driver turns it into a violation; oracle failures observed on the way are reported too.
+func TestVerifC07Race(t *testing.T) {
+	rounds := 60
+	if os.Getenv("VERIF_TIER") == "thorough" {
+		rounds = 600
+	}
+	total := 0
+	for _, sc := range c07Scenarios() {
+		for i := 0; i < rounds; i++ {
+			w, bodies, final := sc.mk()
+			var wg sync.WaitGroup
+			var mu sync.Mutex
+			_ = mu
+			for _, b := range bodies {
+				wg.Add(1)
+				b := b
+				go func() {
+					defer wg.Done()
+					defer func() {
+						if r := recover(); r != nil {
+							mu.Lock()
+							w.errs = append(w.errs, fmt.Sprintf("panic: %v", r))
+							mu.Unlock()
+						}
+					}()
+					b()
+				}()
+			}
+			wg.Wait()
+			if p := vlib.Catch(final); p != nil {
+				w.errs = append(w.errs, fmt.Sprintf("final check panicked: %v", p))
+			}
+			if len(w.errs) > 0 && !c07Known(sc.name, w.errs[0]) {
+				t.Errorf("FREE-RUN-FAILURE scenario=%q round=%d: %s", sc.name, i, strings.Join(w.errs, "; "))
+			}
+			w.close()
+			total++
+		}
+	}
+	fmt.Printf("RACE-PASS rounds_per_scenario=%d executions=%d\n", rounds, total)
+}
+
+// c07Known: the recorded two-indexer finding may also show up in free-running rounds.
+func c07Known(scenario, msg string) bool {
+	return strings.Contains(scenario, "2 indexers") && strings.Contains(msg, "does not satisfy the query")
 }
